@@ -56,6 +56,9 @@ pub fn replay_ops<M: Model>(
     let mut seen = Vec::new();
     let mut path = Vec::new();
     for (i, op) in ops.iter().enumerate() {
+        // the explorer asks for the alphabet in every state before expanding
+        // it (models may prime path-carried monitors there)
+        let _ = model.alphabet(&w, i, &path);
         path.push(op.clone());
         let r = std::panic::catch_unwind(std::panic::AssertUnwindSafe(|| {
             let out = model.apply(&mut w, op);
@@ -148,6 +151,7 @@ fn replay_mode<M: Model + Clone>(spec: &Spec<M>, file: &str) -> i32 {
     let mut path = Vec::new();
     let mut hit = false;
     for (i, op) in v.ops.iter().enumerate() {
+        let _ = model.alphabet(&w, i, &path);
         path.push(op.clone());
         let r = std::panic::catch_unwind(std::panic::AssertUnwindSafe(|| {
             let out = model.apply(&mut w, op);
